@@ -5,6 +5,7 @@ import (
 	"errors"
 	"fmt"
 	"strings"
+	"sync"
 	"time"
 
 	"github.com/islishude/bip39"
@@ -90,9 +91,27 @@ func implEnc(l int64, e []byte) string {
 			}
 			return errKind(err)
 		}
+		// strings are immutable in Go — unless one was conjured from a recycled buffer: the last few mnemonics
+		// handed out are kept (the value the call returned, and a private copy taken at once) and re-read here
+		keptMu.Lock()
+		defer keptMu.Unlock()
+		for _, k := range keptMnemonics {
+			if k.live != k.copy {
+				return "altered-earlier-result " + hx([]byte(k.copy)) + " now reads " + hx([]byte(k.live))
+			}
+		}
+		keptMnemonics = append(keptMnemonics, keptString{live: s, copy: strings.Clone(s)})
+		if len(keptMnemonics) > 8 {
+			keptMnemonics = keptMnemonics[1:]
+		}
 		return "ok " + hx([]byte(s))
 	})
 }
+
+type keptString struct{ live, copy string }
+
+var keptMnemonics []keptString
+var keptMu sync.Mutex
 
 func implChk(l int64, s string) string {
 	return guarded(func() string {
